@@ -235,9 +235,11 @@ PROPS = {
              "args": ["--kinds", "cumul,cumul,linle"]},
             {"name": "cumulative-probe", "mode": "probe", "quick": 1500, "thorough": 30000,
              "args": ["--kinds", "cumul", "--probes", "200"]},
+            {"name": "timetable", "mode": "fix", "quick": 1500, "thorough": 40000, "args": ["--kinds", "cumul"]},
         ],
-        "relevant": panic_or({"solset", "subset", "sol", "verdict", "opt", "partial", "bad", "infer"}, ["iterate", "satisfy", "optimise", "tap"]),
-        "level_text": "Proof: cumulative_sat_iff — the executable test used by the oracle (load at every task start <= capacity, 0 <= capacity) is equivalent to the documented meaning (at EVERY integer time point the usages of the running tasks sum to at most the capacity) for non-negative usages; loadAt_drop_zero — zero-usage / zero-duration tasks never contribute. Tie to code: models built around cumulative constraints (durations 0-3, usages 0-3, capacity 0-4, negative / scaled / offset / sparse start times, half-reified) are iterated to completion under option sets drawn from all 144 CumulativeOptions combinations; each solution set must equal the oracle's; every explanation of every variant seen by the tap is checked by checkInference against the cumulative constraint.",
+        "relevant": panic_or({"solset", "subset", "sol", "verdict", "opt", "partial", "bad", "infer", "fix"}, ["iterate", "satisfy", "optimise", "tap", "fix"]),
+        "lean_modules": ["Pumpkin.Model.Cumulative", "Pumpkin.Model.CumulativeSound"],
+        "level_text": "Proof: timetable_never_prunes / timetable_fixpoint_never_prunes / timetable_conflict_sound — Model/Cumulative.lean is time-table filtering as a function on domains (tasks with zero duration or usage dropped, a usage above the capacity is infeasible, profile of mandatory parts [ub, lb+p), conflict when a profile exceeds the capacity, a task outside a profile which it would overflow is pushed off that time point: lower bound to t+1, upper bound to t-p, with allow_holes_in_domain the start times t-p+1..t removed); proved for EVERY domain state, task list (views as start times, negative times, zero durations/usages), capacity and holes flag: it never removes the start times of an assignment which satisfies the constraint under its documented time-point meaning and reports a conflict only if there is none (via cumulative_sat_iff). Tied: the fixpoint of these rules is what all six propagator variants compute; the real solver's domains at every decision point of solves over cumulative-only models (all 144 option combinations) must equal the model's fixpoint (`fix` records, 1500 solves per quick run; > 99.7 % are equal, the rest are WEAKER than the model — the incremental variants and tasks sharing a start variable occasionally miss a propagation, which the property does not forbid — counted in the evidence; a real state STRONGER than the model breaks the correspondence and is judged by the oracle). cumulative_sat_iff — the executable test used by the oracle (load at every task start <= capacity, 0 <= capacity) is equivalent to the documented meaning (at EVERY integer time point the usages of the running tasks sum to at most the capacity) for non-negative usages; loadAt_drop_zero — zero-usage / zero-duration tasks never contribute. Tie to code: models built around cumulative constraints (durations 0-3, usages 0-3, capacity 0-4, negative / scaled / offset / sparse start times, half-reified) are iterated to completion under option sets drawn from all 144 CumulativeOptions combinations; each solution set must equal the oracle's; every explanation of every variant seen by the tap is checked by checkInference against the cumulative constraint.",
         "level_note": LEVEL_NOTE_COMMON + "The incremental time-table maintenance is not modelled; it is tied only through answers and explanations.",
     },
     "C09": {
@@ -271,9 +273,10 @@ PROPS = {
             {"name": "cumulative-probe", "mode": "probe", "quick": 1500, "thorough": 30000,
              "args": ["--kinds", "cumul", "--probes", "200"]},
             {"name": "fix", "mode": "fix", "quick": 2500, "thorough": 60000, "args": []},
+            {"name": "timetable", "mode": "fix", "quick": 800, "thorough": 20000, "args": ["--kinds", "cumul"]},
         ],
         "relevant": panic_or({"infer", "minfer", "nogood", "bad", "implicit", "fix"}, ["tap", "fix"]),
-        "lean_modules": ["Pumpkin.Model.ImplicitReason", "Pumpkin.Model.Propagation", "Pumpkin.Model.PropagationSound", "Pumpkin.Model.PropagationArith", "Pumpkin.Model.PropagationCompile"],
+        "lean_modules": ["Pumpkin.Model.ImplicitReason", "Pumpkin.Model.Propagation", "Pumpkin.Model.PropagationSound", "Pumpkin.Model.PropagationArith", "Pumpkin.Model.PropagationCompile", "Pumpkin.Model.Cumulative", "Pumpkin.Model.CumulativeSound"],
         "level_text": "Proof: Model/Propagation.lean models the propagators themselves as functions on domains, statement by statement after the Rust sources (LinearLeq, LinearNe, IntAbs, Maximum, IntTimes incl. propagate_signs, Division incl. sign normalisation / propagate_upper_bounds / propagate_positive_domains, Element (four phases), the unit rule of the nogood propagator after add_permanent_nogood's semantic minimisation, the reified wrapper with detect_inconsistency and the initialise_at_root conflict), the decomposition of constraints into propagators (equals, not_equals, all_different, minimum, negation, implied_by, reify) and the fixpoint; pass_ok / propagation_never_prunes / propagation_conflict_sound / fixpoint_never_prunes prove for ALL domain states, views and constants that a pass (and the fixpoint of any set of propagators) never removes a value used by a solution of its constraint within the current domains and reports a conflict only if there is none (the division and multiplication rules included: truncating division, sign cases, ceil/floor bounds). Tied exactly: a recording brancher snapshots the domains of all variables at every decision point of real solves (`fix` records); root state = model of sequential posting, state after each decision = fixpoint of (previous state + decision), conflicts = model conflicts, exactly, until the first learned nogood (afterwards the real state must be a subset); independently the verified oracle checks that no value of a solution within the start domains is ever pruned. A mismatch that is not a pruned solution is reported as a broken correspondence (no-failing-input-found unless the run's oracle-judged records find one). implicit_reason_entails / implicit_reason_progress — Model/ImplicitReason.lean mirrors the nine arms (and assertion guards) of get_propagation_reason for predicates that are not literally on the trail; every reason it produces entails the explained predicate for ALL integer values and never contains it; tied exactly: the hook records the trail predicate next to each implicit reason and the model must produce the identical list. checkInference_iff — the acceptor for an explanation (premises -> conclusion, or -> false) is equivalent to semantic entailment from the single tagged constraint within the declared domains, hence sound AND complete (never rejects a valid explanation); accepted_propagation / accepted_conflict / never_prunes_solution / accepted_model_inference. Tie to code (hook: explanation tap): every propagation (reason computed immediately, lazy reasons included), every reported conflict, every reason handed to conflict analysis later (explicit, lazily recomputed, implicit) and every learned nogood during real searches is recorded with the propagator's tag and judged; 'all reason predicates hold in the state in which the reason is given' is evaluated inside the hook.",
         "level_note": LEVEL_NOTE_COMMON + "Enumeration limits trace acceptance to small domains; nogood-propagator reasons are judged against the whole model.",
     },
